@@ -26,7 +26,8 @@
 //   - var ( a = e; b T; p *T ) blocks are split into single declarations (a pointer variable starts as 0 = nil).
 //
 //   - mem.statevars: package-level variables that are fields of the memory type ("protectReservedZeroedPage": "FF.Vmm.Pt.prot:bool"),
-//     read through the projection;
+//     read through the projection; with a third component ("FF.Vmm.Pt.prot:bool:FF.Vmm.Pt.set_prot") they may also be assigned
+//     (`X = e`, also as a target of `X, err = seam()`): the setter is applied to the memory;
 //   - mem.funcparams: a parameter of a named function type (walkFn pageTableWalker) is a seam: calls of it are recorded and
 //     answered by a stateful oracle like every other seam (no Coq parameter for the function value itself);
 //   - parameters and results of type *T (T in mem.ptr) are addresses;
@@ -39,6 +40,8 @@
 //     statement form, which models a pointer item by its VALUE and forbids stores through it, is not used; its
 //     closure-return machinery - cloStack / closureReturn - is).  That walk presents exactly that sequence is a separate
 //     theorem about the translation of walk itself (funcparams).
+//   - a string literal passed to a seam (a format string of kfmt.Printf) is GBytes of its bytes; `panic` may be listed as a
+//     (noreturn) seam so that the state and trace at the panic stay visible;
 //   - mem.noreturn: a seam that never returns (nonRecoverablePageFault panics): the call is recorded and the function ends
 //     there, as after a return - the final world then shows the state at the moment of the panic and, as its most recent
 //     event, the call with its arguments (mem.errarg encodes an error-typed argument as a garg);
@@ -59,6 +62,7 @@ import (
 	"go/token"
 	"path/filepath"
 	"sort"
+	"strconv"
 	"strings"
 )
 
@@ -319,6 +323,19 @@ func (tr *translator) memSeamHoist(c *ast.CallExpr, name string, m seamMethod, e
 	lst := "nil"
 	var args []string
 	for _, a := range c.Args {
+		if bl, isLit := a.(*ast.BasicLit); isLit && bl.Kind == token.STRING {
+			// a string literal handed to a seam (a format string): its bytes
+			str, err := strconv.Unquote(bl.Value)
+			if err != nil {
+				fail("%s: bad string literal %s", tr.fn.Name, bl.Value)
+			}
+			lit := "nil"
+			for i := len(str) - 1; i >= 0; i-- {
+				lit = fmt.Sprintf("%d :: %s", str[i], lit)
+			}
+			args = append(args, "(GBytes ("+lit+"))")
+			continue
+		}
 		as, at := tr.expr(a, en)
 		if at.width == -2 && memCfg.Mem.ErrArg != "" {
 			args = append(args, "("+memCfg.Mem.ErrArg+" "+as+")")
@@ -423,8 +440,8 @@ func (tr *translator) memExpr(e ast.Expr, en *env) (string, tinfo, bool) {
 		if _, isVar := en.vars[t.Name]; !isVar {
 			if sv, ok := memCfg.Mem.StateVars[t.Name]; ok {
 				parts := strings.Split(sv, ":")
-				if len(parts) != 2 {
-					fail("mem.statevars of %s must be \"projection:type\"", t.Name)
+				if len(parts) != 2 && len(parts) != 3 {
+					fail("mem.statevars of %s must be \"projection:type[:setter]\"", t.Name)
 				}
 				return "(" + parts[0] + " (f_world_mem " + v(tr.ptrRecv) + "))", memOracleTy(parts[1]), true
 			}
@@ -694,6 +711,26 @@ func (tr *translator) memStmt(stmts []ast.Stmt, en *env, k func(*env) string, re
 						}
 						pre := tr.takePre()
 						return tr.wrapPre(pre, "let "+v(id.Name)+" := "+val+" in\n  "+rest(en)), true
+					}
+				}
+			}
+			// X = e for a package-level variable that is a field of the memory type (with a setter)
+			if id, ok := s.Lhs[0].(*ast.Ident); ok {
+				if _, isVar := en.vars[id.Name]; !isVar {
+					if sv, ok := memCfg.Mem.StateVars[id.Name]; ok {
+						parts := strings.Split(sv, ":")
+						if len(parts) != 3 {
+							fail("%s: assignment to state variable %s, which has no setter in mem.statevars", tr.fn.Name, id.Name)
+						}
+						rhs, rt := tr.expr(s.Rhs[0], en)
+						ti := memOracleTy(parts[1])
+						val := rhs
+						if rt.width == 0 && ti.width > 0 {
+							val = tr.wrap(ti.width, rhs)
+						}
+						pre := tr.takePre()
+						w := v(tr.ptrRecv)
+						return tr.wrapPre(pre, "let "+w+" := (set_f_world_mem "+w+" ("+parts[2]+" (f_world_mem "+w+") "+val+")) in\n  "+rest(en)), true
 					}
 				}
 			}
